@@ -8,6 +8,7 @@ import (
 	"encoding/hex"
 	"fmt"
 	"go/types"
+	"hash/crc32"
 	"math"
 	"path"
 	"reflect"
@@ -18,6 +19,15 @@ import (
 )
 
 var nativeFuncs = map[string]interface{}{
+	"internal/bytealg.IndexByteString":    strings.IndexByte,
+	"internal/bytealg.IndexString":        strings.Index,
+	"internal/bytealg.CountString":        func(s string, c byte) int { return strings.Count(s, string(c)) },
+	"internal/stringslite.Index":          strings.Index,
+	"internal/stringslite.IndexByte":      strings.IndexByte,
+	"internal/stringslite.HasPrefix":      strings.HasPrefix,
+	"internal/stringslite.HasSuffix":      strings.HasSuffix,
+	"internal/stringslite.Cut":            strings.Cut,
+	"hash/crc32.ChecksumIEEE":             crc32.ChecksumIEEE,
 	"strings.Contains":                    strings.Contains,
 	"strings.ContainsAny":                 strings.ContainsAny,
 	"strings.ContainsRune":                strings.ContainsRune,
@@ -135,13 +145,46 @@ func init() {
 	}
 	externals["(*encoding/base64.Encoding).EncodeToString"] = func(fr *frame, args []value) value {
 		b := bytesOf(fr, args[1], "base64 input")
-		return base64.StdEncoding.EncodeToString(b)
+		return nativeBase64(args[0]).EncodeToString(b)
 	}
 	externals["(*encoding/base64.Encoding).DecodeString"] = func(fr *frame, args []value) value {
 		s := concreteString(fr, args[1], "base64 input")
-		b, e := base64.StdEncoding.DecodeString(s)
+		b, e := nativeBase64(args[0]).DecodeString(s)
 		return tuple{bytesValue(b), fr.i.nativeError(e)}
 	}
+}
+
+// nativeBase64 rebuilds the native equivalent of an interpreted
+// *base64.Encoding from its alphabet, padding character and strictness
+// (fields encode, decodeMap, padChar, strict).
+func nativeBase64(recv value) *base64.Encoding {
+	p, _ := recv.(*value)
+	if p == nil {
+		unsupported("base64: nil encoding")
+	}
+	st, ok := (*p).(structure)
+	if !ok || len(st) < 4 {
+		unsupported("base64: unexpected encoding layout")
+	}
+	arr, ok := st[0].(array)
+	if !ok || len(arr) != 64 {
+		unsupported("base64: unexpected alphabet layout")
+	}
+	alpha := make([]byte, 64)
+	for i, v := range arr {
+		b, ok := v.(uint8)
+		if !ok {
+			unsupported("base64: symbolic alphabet")
+		}
+		alpha[i] = b
+	}
+	enc := base64.NewEncoding(string(alpha))
+	pad, _ := st[2].(int32)
+	enc = enc.WithPadding(rune(pad))
+	if strict, _ := st[3].(bool); strict {
+		enc = enc.Strict()
+	}
+	return enc
 }
 
 // nativeError converts a Go error produced by the engine into an interpreted
